@@ -167,6 +167,10 @@ type LocalOp struct {
 	Want bool   `json:"want,omitempty"`
 	OK   bool   `json:"ok,omitempty"`
 	Size int    `json:"size,omitempty"`
+	// Multi > 1: the peer answers this (want-reply) request with Multi replies
+	// back to back; the first one is the scripted answer, the others say the
+	// opposite
+	Multi int `json:"multi,omitempty"`
 }
 
 type LocalTask struct {
@@ -180,6 +184,11 @@ type Probe struct {
 	Stale  int  `json:"stale"` // number of unsolicited replies injected before the barrier
 	OK     bool `json:"ok"`    // the scripted real answer; the unsolicited ones say the opposite
 	Mixed  bool `json:"mixed,omitempty"`
+	// Multi > 1: instead of unsolicited replies while idle, an earlier request
+	// of the same kind (same channel) is answered by the peer with Multi
+	// replies back to back (the surplus ones say the opposite of OK); the
+	// probed request is issued after the system has become idle again.
+	Multi int `json:"multi,omitempty"`
 }
 
 // Park describes the calls left blocked when the connection is ended.
@@ -363,6 +372,9 @@ func gen(r *rand.Rand, prop, tier string, index int) any {
 			if op.Kind == "write" || op.Kind == "ewrite" {
 				op.Size = []int{0, 1, 8, 100, 5000, 40000}[r.IntN(6)]
 			}
+			if (op.Kind == "csend" || op.Kind == "gsend") && op.Want && r.IntN(5) == 0 {
+				op.Multi = 2 + r.IntN(5)
+			}
 			if r.IntN(150) == 0 {
 				op.Kind = "connclose"
 			}
@@ -386,6 +398,9 @@ func gen(r *rand.Rand, prop, tier string, index int) any {
 		p := Probe{Global: r.IntN(2) == 0, Ref: r.IntN(8), Stale: 1 + r.IntN(3), OK: r.IntN(2) == 0, Mixed: r.IntN(4) == 0}
 		if r.IntN(6) == 0 {
 			p.Stale = 17 + r.IntN(6)
+		}
+		if r.IntN(3) == 0 {
+			p.Multi = 2 + r.IntN(5)
 		}
 		s.Probes = append(s.Probes, p)
 	}
@@ -582,6 +597,7 @@ type run struct {
 	phase      int
 	probeIdx   int
 	probeChan  *lchan
+	probeWhy   string
 	probesDone int
 	endedEarly bool
 	finished   bool
@@ -1171,7 +1187,9 @@ func (r *run) pushGlobalReply(ok bool, payload string, stale bool) {
 	}
 	if r.push(b) {
 		r.gReplies[gkey(payload, ok)] = true
-		if stale {
+		if stale && strings.HasPrefix(payload, "surplus:") {
+			rt.Fault("peer-surplus-global-reply")
+		} else if stale {
 			rt.Fault("peer-unsolicited-global-reply")
 		}
 	}
@@ -1274,21 +1292,37 @@ func (r *run) peerHandle(m *mpkt) {
 			}
 		}
 	case 80:
-		// "lg:<id>" with payload [ok, withhold]
-		if id, ok := atoiSuffix(m.name, "lg:"); ok && m.want && len(m.data) >= 2 && m.data[1] == 0 {
+		// "lg:<id>" with payload [ok, withhold, number of replies, flavour of the surplus replies]
+		if id, ok := atoiSuffix(m.name, "lg:"); ok && m.want && len(m.data) >= 4 && m.data[1] == 0 {
 			r.pushGlobalReply(m.data[0] == 1, fmt.Sprintf("ans:%d", id), false)
+			for k := 1; k < int(m.data[2]); k++ {
+				r.pushGlobalReply(m.data[3] == 1, fmt.Sprintf("surplus:%d:%d", id, k), true)
+			}
+			if m.data[2] > 1 {
+				rt.Event("peer answered lg:%d with %d replies", id, m.data[2])
+			}
 		}
 	case 98:
-		if _, ok := atoiSuffix(m.name, "q:"); ok && m.want && len(m.data) >= 2 && m.data[1] == 0 {
+		if id, ok := atoiSuffix(m.name, "q:"); ok && m.want && len(m.data) >= 4 && m.data[1] == 0 {
 			if L, _, ok := r.rcptLocal(m.rcpt); ok {
-				var b []byte
-				if m.data[0] == 1 {
-					b = ssh.Marshal(&msgChannelSuccess{Recipient: L})
-				} else {
-					b = ssh.Marshal(&msgChannelFailure{Recipient: L})
+				reply := func(flag bool) {
+					var b []byte
+					if flag {
+						b = ssh.Marshal(&msgChannelSuccess{Recipient: L})
+					} else {
+						b = ssh.Marshal(&msgChannelFailure{Recipient: L})
+					}
+					if r.push(b) {
+						r.noteCReply(L, flag)
+					}
 				}
-				if r.push(b) {
-					r.noteCReply(L, m.data[0] == 1)
+				reply(m.data[0] == 1)
+				for k := 1; k < int(m.data[2]); k++ {
+					reply(m.data[3] == 1)
+					rt.Fault("peer-surplus-channel-reply")
+				}
+				if m.data[2] > 1 {
+					rt.Event("peer answered q:%d with %d replies", id, m.data[2])
 				}
 			}
 		}
@@ -1469,11 +1503,13 @@ func boolByte(b bool) byte {
 
 // globalSend issues one global request; strict = the call was issued after a
 // quiescence barrier, so exactly the scripted reply must come back.
-func (r *run) globalSend(t *ltask, want, ok, withhold, strict bool) {
+// multi > 1 asks the peer for that many replies (surplus ones of flavour
+// surplus).
+func (r *run) globalSend(t *ltask, want, ok, withhold, strict bool, multi int, surplus bool) {
 	id := r.nextReq
 	r.nextReq++
 	t.doing("global-sendrequest", fmt.Sprintf("Conn.SendRequest lg:%d want-reply=%v", id, want))
-	gotOK, reply, err := r.conn.SendRequest(fmt.Sprintf("lg:%d", id), want, []byte{boolByte(ok), boolByte(withhold)})
+	gotOK, reply, err := r.conn.SendRequest(fmt.Sprintf("lg:%d", id), want, []byte{boolByte(ok), boolByte(withhold), byte(multi), boolByte(surplus)})
 	rt.Event("global request lg:%d want=%v returned ok=%v reply=%q err=%v", id, want, gotOK, reply, err != nil)
 	if err != nil || !want {
 		return
@@ -1482,7 +1518,7 @@ func (r *run) globalSend(t *ltask, want, ok, withhold, strict bool) {
 	if strict {
 		r.probesDone++
 		if gotOK != ok || string(reply) != exp {
-			r.violate("stale-global-reply-delivered", "an unsolicited global reply was sent while no request was waiting; after the system had become idle SendRequest lg:%d was issued and answered by the peer with (%v, %q), but it returned (%v, %q)", id, ok, exp, gotOK, reply)
+			r.violate("stale-global-reply-delivered", "%s; after the system had become idle SendRequest lg:%d was issued and answered by the peer with (%v, %q), but it returned (%v, %q)", r.probeWhy, id, ok, exp, gotOK, reply)
 		}
 		return
 	}
@@ -1491,12 +1527,12 @@ func (r *run) globalSend(t *ltask, want, ok, withhold, strict bool) {
 	}
 }
 
-func (r *run) chanSend(t *ltask, lc *lchan, want, ok, withhold, strict bool) {
+func (r *run) chanSend(t *ltask, lc *lchan, want, ok, withhold, strict bool, multi int, surplus bool) {
 	id := r.nextReq
 	r.nextReq++
 	t.doing("channel-sendrequest", fmt.Sprintf("Channel.SendRequest q:%d want-reply=%v on %s", id, want, lc.info))
 	t.on = lc.info
-	gotOK, err := lc.ch.SendRequest(fmt.Sprintf("q:%d", id), want, []byte{boolByte(ok), boolByte(withhold)})
+	gotOK, err := lc.ch.SendRequest(fmt.Sprintf("q:%d", id), want, []byte{boolByte(ok), boolByte(withhold), byte(multi), boolByte(surplus)})
 	t.on = nil
 	rt.Event("channel request q:%d on %s want=%v returned ok=%v err=%v", id, lc.info, want, gotOK, err != nil)
 	if err != nil || !want {
@@ -1505,7 +1541,7 @@ func (r *run) chanSend(t *ltask, lc *lchan, want, ok, withhold, strict bool) {
 	if strict {
 		r.probesDone++
 		if gotOK != ok {
-			r.violate("stale-channel-reply-delivered", "an unsolicited channel reply was sent for channel %s while no request was waiting; after the system had become idle SendRequest q:%d was issued on it and answered by the peer with %v, but it returned %v", lc.info, id, ok, gotOK)
+			r.violate("stale-channel-reply-delivered", "%s; after the system had become idle SendRequest q:%d was issued on channel %s and answered by the peer with %v, but it returned %v", r.probeWhy, id, lc.info, ok, gotOK)
 		}
 		return
 	}
@@ -1579,10 +1615,10 @@ func (r *run) localTask(ti int, lt LocalTask) {
 		case "open":
 			r.openChannel(t, false)
 		case "gsend":
-			r.globalSend(t, op.Want, op.OK, false, false)
+			r.globalSend(t, op.Want, op.OK, false, false, op.Multi, !op.OK)
 		case "csend":
 			if lc != nil {
-				r.chanSend(t, lc, op.Want, op.OK, false, false)
+				r.chanSend(t, lc, op.Want, op.OK, false, false, op.Multi, !op.OK)
 			}
 		case "write":
 			if lc != nil {
@@ -1658,9 +1694,24 @@ func runHarness(c *core.Ctx, scnAny any) {
 			go func(n int) {
 				t := r.newTask(fmt.Sprintf("probe%d", n))
 				if p.Global {
-					r.globalSend(t, true, p.OK, false, true)
+					r.globalSend(t, true, p.OK, false, true, 0, false)
 				} else {
-					r.chanSend(t, lc, true, p.OK, false, true)
+					r.chanSend(t, lc, true, p.OK, false, true, 0, false)
+				}
+				t.done = true
+			}(n)
+		case "probe-first":
+			// the earlier request that the peer answers with several replies;
+			// whichever of them it returns is fine
+			p := r.scn.Probes[r.probeIdx]
+			lc := r.probeChan
+			n++
+			go func(n int) {
+				t := r.newTask(fmt.Sprintf("probe%d-first", n))
+				if p.Global {
+					r.globalSend(t, true, !p.OK, false, false, p.Multi, !p.OK)
+				} else {
+					r.chanSend(t, lc, true, !p.OK, false, false, p.Multi, !p.OK)
 				}
 				t.done = true
 			}(n)
@@ -1682,7 +1733,7 @@ func (r *run) startParkers() {
 	for i := 0; i < pk.GSend; i++ {
 		go func() {
 			t := r.newTask(fmt.Sprintf("parked-gsend%d", i))
-			r.globalSend(t, true, true, true, false)
+			r.globalSend(t, true, true, true, false, 0, false)
 			t.done = true
 		}()
 	}
@@ -1693,7 +1744,7 @@ func (r *run) startParkers() {
 		}
 		go func() {
 			t := r.newTask(fmt.Sprintf("parked-csend%d", i))
-			r.chanSend(t, lc, true, true, true, false)
+			r.chanSend(t, lc, true, true, true, false, 0, false)
 			t.done = true
 		}()
 	}
@@ -1785,7 +1836,15 @@ func (r *run) onIdle() bool {
 			}
 			p := r.scn.Probes[r.probeIdx]
 			n := 0
+			if p.Global && p.Multi > 1 {
+				r.probeWhy = fmt.Sprintf("the peer answered an earlier global request with %d replies back to back", p.Multi)
+				rt.Event("probe %d: a global request that the peer answers with %d replies", r.probeIdx, p.Multi)
+				r.phase = phProbeSend
+				r.command("probe-first")
+				return true
+			}
 			if p.Global {
+				r.probeWhy = "an unsolicited global reply was sent while no request was waiting"
 				for k := 0; k < p.Stale; k++ {
 					flag := !p.OK
 					if p.Mixed && k%2 == 1 {
@@ -1807,6 +1866,14 @@ func (r *run) onIdle() bool {
 					continue
 				}
 				r.probeChan = el[p.Ref%len(el)]
+				if p.Multi > 1 {
+					r.probeWhy = fmt.Sprintf("the peer answered an earlier request on channel %s with %d replies back to back", r.probeChan.info, p.Multi)
+					rt.Event("probe %d: a request on %s that the peer answers with %d replies", r.probeIdx, r.probeChan.info, p.Multi)
+					r.phase = phProbeSend
+					r.command("probe-first")
+					return true
+				}
+				r.probeWhy = fmt.Sprintf("an unsolicited channel reply was sent for channel %s while no request was waiting", r.probeChan.info)
 				for k := 0; k < p.Stale; k++ {
 					var b []byte
 					if p.OK {
@@ -1826,7 +1893,8 @@ func (r *run) onIdle() bool {
 			return true
 		case phProbeSend:
 			// idle again: the mux has consumed the unsolicited replies while no
-			// request was waiting. Only now the request is issued.
+			// request was waiting (or the earlier request has returned and all
+			// of its replies have been consumed). Only now the request is issued.
 			if !r.idleChecks() {
 				return false
 			}
@@ -2069,6 +2137,20 @@ func shrink(scnAny any) []any {
 			n := cp()
 			n.Probes[i].Stale = 1
 			out = append(out, n)
+		}
+		if p.Multi > 3 {
+			n := cp()
+			n.Probes[i].Multi = 3
+			out = append(out, n)
+		}
+	}
+	for i, lt := range s.Locals {
+		for k, op := range lt.Ops {
+			if op.Multi > 0 {
+				n := cp()
+				n.Locals[i].Ops[k].Multi = 0
+				out = append(out, n)
+			}
 		}
 	}
 	if s.Park != (Park{}) {
